@@ -144,6 +144,27 @@ theorem restricted_calls_only_claimants {s : State} (hi : Inv s) (names : List N
     exact h5
   · exact Or.inr h
 
+/-- **A restricted-registry object reflects the registry as it is now.**  The object is its name set plus a reference
+to the registry (`RestrictedRegistry` holds nothing else), so collecting through an object made after the calls `ops₁`
+once the calls `ops₂` have followed is `restrictedCollect` of the state reached by `ops₁ ++ ops₂`: it is the filter of
+the CURRENT full collection and calls only CURRENT claimants — whatever was registered when the object was made. -/
+theorem restricted_object_reflects_current_state (ad : Bool) (ti : Option Labels) (ops₁ ops₂ : List Op) (names : List Name)
+    (hc : ClaimsCover (run (init ad ti) (ops₁ ++ ops₂)).1) :
+    ((restrictedRegistry names).collect (run (init ad ti) (ops₁ ++ ops₂)).1).families.Perm
+      ((collect (run (init ad ti) (ops₁ ++ ops₂)).1).families.filterMap (restrictTo names)) ∧
+    (∀ o, o ∈ ((restrictedRegistry names).collect (run (init ad ti) (ops₁ ++ ops₂)).1).calls →
+      (∃ c ns n, o = Owner.coll c ∧ (c, ns) ∈ (run (init ad ti) (ops₁ ++ ops₂)).1.collectorToNames ∧ n ∈ names ∧
+        n ∈ claims (run (init ad ti) (ops₁ ++ ops₂)).1.autoDescribe c) ∨
+      (o = Owner.empty ∧ tiName ∈ names ∧ truthy (run (init ad ti) (ops₁ ++ ops₂)).1.targetInfo = true)) :=
+  ⟨restricted_is_filter_reachable ad ti (ops₁ ++ ops₂) names hc,
+   (restricted_calls_only_claimants (PromVerif.Props.C06.inv_run ad ti (ops₁ ++ ops₂)) names).1⟩
+
+-- an object made while `exB` was registered yields nothing from it once `exB` is unregistered
+example : ((restrictedRegistry [['y']]).collect (run (init false none) [.register exB]).1).families = exB.families ∧
+    ((restrictedRegistry [['y']]).collect (run (init false none) ([.register exB] ++ [.unregister exB])).1).families = [] ∧
+    ((restrictedRegistry [['y']]).collect (run (init false none) ([.register exB] ++ [.unregister exB])).1).calls = [] := by
+  decide
+
 /-! ### the built-in metric classes satisfy `ClaimsCover` -/
 
 section Builtin
